@@ -99,6 +99,8 @@ type exec struct {
 	gobKeys     []gobKey
 	uuidByOrd   []value
 	lastNow     *Term
+	rpcPeers    map[*value]value
+	rpcCalls    int
 	sleeps      int
 	parent      map[int]int      // union-find over variable ids
 	groups      map[int][]*Term  // path-condition terms per connected component
@@ -211,6 +213,8 @@ func (ex *exec) resetPath(prefix []int) {
 	ex.gobKeys = nil
 	ex.uuidByOrd = nil
 	ex.lastNow = nil
+	ex.rpcPeers = nil
+	ex.rpcCalls = 0
 	ex.sleeps = 0
 	ex.solver.Reset()
 	ex.solver.SetEUFStrings(!ex.realStrings)
@@ -624,7 +628,7 @@ func (ex *exec) runPath1(entry *ssa.Function, prefix []int, wantSample bool) (ou
 		if out.status == "ok" && len(ex.notes) > 0 {
 			out.status, out.reason = "incomplete", ex.notes[0]
 		}
-		if out.status == "ok" && wantSample {
+		if out.status == "ok" && wantSample && len(ex.failures) == 0 {
 			s := &PathSample{Path: ex.pathChoices(), Sched: ex.schedNondet}
 			if len(ex.tt.vars) > 0 {
 				r, model := ex.check(nil, true)
